@@ -44,7 +44,10 @@ var ErrClosedWrite error = &net.OpError{Op: "write", Net: "tcp", Err: errors.New
 // ScriptConn implements net.Conn over a list of data segments.
 type ScriptConn struct {
 	Segs [][]byte // remaining read answers (each Read returns at most the rest of the current segment)
-	End  int      // behaviour once Segs is exhausted
+	// Next holds further batches of read answers: a batch becomes readable at the first Write that
+	// happens after the previous batch was read completely (the peer answers request k only after request k was sent).
+	Next [][][]byte
+	End  int // behaviour once Segs is exhausted
 
 	Out         []byte // everything written by the code under test
 	WriteFailAt int    // if >0: the write that would make len(Out) exceed this fails (bytes up to the limit are taken)
@@ -53,6 +56,7 @@ type ScriptConn struct {
 	CloseCount  int
 
 	ReadCalls       int
+	WriteCalls      int
 	Consumed        int   // bytes handed to the reader so far
 	EndReads        int   // number of reads answered by the end-of-script behaviour
 	EndReadMarks    []int // value of Mark at each end-of-script read
@@ -118,6 +122,10 @@ func (s *ScriptConn) Write(p []byte) (int, error) {
 		s.WriteAfterClose++
 		return 0, ErrClosedWrite
 	}
+	if s.Remaining() == 0 && len(s.Next) > 0 {
+		s.Segs, s.Next = s.Next[0], s.Next[1:]
+	}
+	s.WriteCalls++
 	if s.WriteFailAt > 0 && len(s.Out)+len(p) > s.WriteFailAt {
 		k := s.WriteFailAt - len(s.Out)
 		if k < 0 {
